@@ -54,6 +54,11 @@ func (h *HttpServer) handleUploadURLInit(w http.ResponseWriter, r *http.Request)
 		http.NotFound(w, r)
 		return
 	}
+	// Vending pre-signed URLs is work done on the caller's behalf: it sits
+	// behind the authenticator like every RPC route.
+	if auth := h.authenticate(w, r); auth == nil {
+		return
+	}
 	if ct := r.Header.Get("Content-Type"); ct != arrowContentType {
 		h.writeHttpError(w, http.StatusUnsupportedMediaType,
 			fmt.Errorf("unsupported content type: %s", ct), UploadURLResponseSchema)
